@@ -309,7 +309,16 @@ def run(chk, ctx):
               count=chk.rule_counts.get('C13.C', 0))
     chk.floor('C13.I', 22, 'constructors')
     chk.units['constrained_classes'] = n_constrained + 1
-    chk.note('"never on decode" is decided by C05.V')
+    # never on decode: who-may-call over frame.unmarshal
+    from .. import framepaths as F
+    chk.rule('C13.N', 'never on decode: validate() is reachable from '
+             'frame.unmarshal only through the argument-less constructor '
+             'and no decoded value is refused by a validation raise')
+    nval, bad = F.validation_on_receive(ctx)
+    chk.ob('C13.N', 'frame.unmarshal', not bad,
+           '%d validate() activations on the receive path, all inside '
+           'default construction' % nval if not bad else
+           '; '.join(sorted(set(bad))[:3]), site='pamqp/frame.py')
 
 
 def check_class(chk, ctx, ci, q, v, want, regex_ok, site):
